@@ -112,8 +112,14 @@ def load_cfg(rng: random.Random, tier: str, prop: str) -> gen.GenCfg:
     )
 
 
-def gen_load_case(rng: random.Random, tier: str, prop: str) -> Dict[str, Any]:
+def gen_load_case(rng: random.Random, tier: str, prop: str, k: int = -1) -> Dict[str, Any]:
     cfg = load_cfg(rng, tier, prop)
+    if k % 25 == 3:
+        # no activity on any device stream: host operators, synchronising calls and their device-wide records (stream -1) only
+        cfg.p_launch, cfg.p_sync, cfg.p_event_sync, cfg.unlinked_head, cfg.p_drop_kernel = 0.0, 0.5, 0.0, 0, 0.0
+    elif k % 25 == 13:
+        # launches whose activities are all missing from the file (plus synchronisation records)
+        cfg.p_drop_kernel, cfg.p_sync, cfg.unlinked_head = 1.0, 0.3, 0
     if cfg.pre_ops == 0 and cfg.n_steps == 0 and cfg.post_ops == 0:
         cfg.pre_ops = 1
     ranks = gen.gen_trace_set(rng, cfg)
